@@ -288,8 +288,17 @@ def read_csv_col(path):
     return {float(r[0]): r[1] for r in rows[1:]}
 
 
+_TMP_MADE = set()
+
+
 def tmpdir(tag):
-    d = os.path.join(OUT, "tmp", tag)
+    """scratch directory under out/tmp, private to this process (checks may run side by side), removed at exit"""
+    d = os.path.join(OUT, "tmp", f"{tag}-{os.getpid()}")
     shutil.rmtree(d, ignore_errors=True)
     os.makedirs(d, exist_ok=True)
+    if not _TMP_MADE:
+        import atexit
+        me = os.getpid()
+        atexit.register(lambda: [shutil.rmtree(x, ignore_errors=True) for x in list(_TMP_MADE)] if os.getpid() == me else None)
+    _TMP_MADE.add(d)
     return d
